@@ -77,7 +77,7 @@ form("divexact.I", "exact"); form("divexact.ul", "exact", "Z", "u64"); form("div
 form("dom.divexact", "exact")
 # euclidean division
 form("divmod.I", "divmod"); form("divmod.l", "divmod", "Z", "i64"); form("divmod.ul", "divmod", "Z", "u64")
-form("dom.divmod", "divmod"); form("dom.quoRem", "divmod"); form("dom.quo", "equo"); form("dom.quoin", "equo")
+form("dom.divmod", "divmod"); form("dom.quoRem", "divmod"); form("dom.quo", "equo"); form("dom.quoin", "equo"); form("dom.quo@qb", "equo")
 # remainders by name
 form("trem.I", "tr"); form("crem.I", "cr"); form("frem.I", "fr")
 form("trem.ul", "tr", "Z", "u64"); form("crem.ul", "cr", "Z", "u64"); form("frem.ul", "fr", "Z", "u64")
@@ -279,8 +279,15 @@ def main(tier, replay=None):
         for f, n, d in DIRECTED:
             cases.append((f, n, d, "directed"))
         per = 260 if tier == "quick" else 12000
+        N, D = (7, 3) if tier == "quick" else (48, 13)
         for f in sorted(F):
             kind, nt, dt, ret = F[f]
+            # a small box swept completely for every form (independent of the seed): n in [-N, N], d in [-D, D] \ {0}
+            if not f.startswith("gmp.") or tier != "quick":
+                for n in range(-N, N + 1):
+                    for d in range(-D, D + 1):
+                        if d != 0 and clampfit(n, nt) and clampfit(d, dt) and (kind != "exact" or n % d == 0):
+                            cases.append((f, n, d, "small box (exhaustive)"))
             cnt = per if not f.startswith("gmp.") else max(120, per // 4)
             for i in range(cnt):
                 n, d, cl = gen_pair(rng, kind, nt, dt, i)
@@ -289,10 +296,20 @@ def main(tier, replay=None):
         kind, nt, dt, ret = F[f]
         assert d != 0 and clampfit(n, nt) and clampfit(d, dt), (f, n, d)
     impl_in = "".join("%s %d %d\n" % (f, n, d) for f, n, d, cl in cases)
-    rc, iout, ierr = vf.run_lines(himpl, impl_in, timeout=1500)
-    if rc != 0 or len(iout) != len(cases):
-        chk.broke("implementation harness failed (rc=%s, %d/%d lines)" % (rc, len(iout), len(cases)), ierr)
-        return chk.finish()
+    lines = impl_in.splitlines(True)
+    iout, crashed, start = [], {}, 0
+    while start < len(lines):          # a crash inside the library is a result too: locate the case, record it, go on
+        rc, o, ierr = vf.run_lines(himpl, "".join(lines[start:]), timeout=1500)
+        iout += o
+        if len(iout) >= len(lines):
+            break
+        if rc == 0 or len(crashed) >= 25:
+            chk.broke("implementation harness failed (rc=%s, %d/%d lines)" % (rc, len(iout), len(cases)), ierr)
+            return chk.finish()
+        crashed[len(iout)] = rc
+        iout.append("CRASH(rc=%s)" % rc)
+        start = len(iout)
+    iout = iout[:len(lines)]
     mout = None
     if drv:
         rc, mout, merr = vf.run_lines(drv, impl_in, timeout=1500)
@@ -333,7 +350,7 @@ def main(tier, replay=None):
                 chk.broke("extracted model differs from the specification oracle on %s n=%d d=%d: model=%s spec=%s" % (f, n, d, mout[i], exps))
     if len(chk.broken) > 20:
         chk.broken = chk.broken[:20] + [{"what": "... %d more" % (len(chk.broken) - 20), "detail": ""}]
-    chk.cov["rule"] = ("every call form x (n, d) drawn per class: n = k d, n in {d,-d,0}, |d| = 1, multi-limb multiples, |d| > |n|, "
+    chk.cov["rule"] = ("every call form x { the box n in [-N,N], d in [-D,D]\\{0} swept completely (quick N=7, D=3; thorough N=48, D=13) } + (n, d) drawn per class: n = k d, n in {d,-d,0}, |d| = 1, multi-limb multiples, |d| > |n|, "
                        "k d +- e, k d +- (|d|-1), k d +- |d|/2, word limits of the operand types, random structured limbs; both signs; "
                        "non-trivial = n != 0, |d| != 1 and d does not divide n (for divexact: |d| != 1, n != 0); distinct = (form, n, d)")
     chk.cov["traces_validated_against_impl"] = ncorr
